@@ -19,14 +19,19 @@ for n,p in enumerate(ids):
     if '\n**As built**' in props[p]: props[p]=props[p][:props[p].index('\n**As built**')].rstrip()
 replaced={p:open('/verif/tool/dev/design_parts/%s.md'%p).read().rstrip() for p in ["C06","C12","C13","C18","C19","C20"]}
 after_miss={
- "C04":"N7 was added after seeded change C04-2 (zero-window test on the unscaled window) was caught only by C02/W1.",
- "C05":"L6 (timer typestate) was added after seeded change C05-2 was missed.",
+ "C01":"R5 (link typestate of list elements) was added after seeded change C01-4 was missed: `Remove` clearing the removed element's links and a cursor fix-up reading `seg.Next()` after `Remove` are each behaviour-preserving, only their conjunction breaks the stream; the rule decides the conjunction. The `newSender` rows of R3 (sndUna/sndNxt/sndNxtList = iss+1, maxSentAck = irs+1) were added with C05-4.",
+ "C04":"N7 was added after seeded change C04-2 (zero-window test on the unscaled window) was caught only by C02/W1; N8 after C04-3; N6s (the window primitives, same evaluator as C14/S1) after C04-4 was caught only by C14/S1.",
+ "C05":"L6 (timer typestate) was added after seeded change C05-2 was missed; the L5 table was extended after C05-3 (`fr.first`) and C05-4 (initial and later stores of `fr.last`, confinement of the field).",
+ "C06":"E6m was added after C06-3 was caught only by C09/D5; E7 (shared with C12/T3) after C06-4 was caught only by C12/T3; E0w (interval check of every 16-bit word handed to the checksum, shared with C15/B4w) after C15-4 was missed.",
+ "C12":"T7 (whether resolution is required at all: decision table of `IsResolutionRequired`, exact guards of the only `linkCache` store) was added after seeded change C12-4 was missed.",
+ "C13":"I6 (reassembly key, shared with C08/F4) was added after C13-4 was caught only by C08/F4.",
+ "C17":"Y6 (no channel receive anywhere in package waiter) was added after seeded change C17-4 was missed: the closed-world comparison of `EventUnregister` is per site kind and its table listed no channel operation.",
  "C07":"P2-contract and P2-progress were refined after seeds C07-1/C07-2 (see §6).",
  "C08":"F8 (stale element alias) was added after seeded change C08-2 was missed: inside loops all versions of a field collapse to `@u`, so the exact table F6 could not tell a pointer taken before `append` from one taken after.",
  "C09":"D6 (module-wide register/unregister call-site table) was added after seeded change C09-2 was missed; the `registerEndpoint` table entry after C07-1.",
  "C10":"Q5 was added after seed C10-1; Q6 (module-wide reserve/release call-site table) after C10-2 was missed.",
- "C11":"U7 (read-side close table) was added after seeded change C11-2 was missed; the fresh-packet formulation of U2 after C11-1.",
- "C15":"B4 was planned in round 0 and refined after C06-1/C15-1; the tight room test of B2 was added after C15-2 was missed.",
+ "C11":"U7 (read-side close table) was added after seeded change C11-2 was missed; the fresh-packet formulation of U2 after C11-1; U8 (reassembly key, shared with C08/F4) after C11-4 was caught only by C08/F4.",
+ "C15":"B4 was planned in round 0 and refined after C06-1/C15-1; the tight room test of B2 was added after C15-2 was missed; B4w (every 16-bit word handed to Checksum/ChecksumCombine anywhere in the module is free of wrapping 16-bit arithmetic and of lossy narrowing, by interval evaluation of the operands) after C15-4 was missed.",
 }
 def asbuilt(p):
     ev=json.load(open('/verif/evidence/%s.json'%p))
